@@ -15,9 +15,10 @@ type tree struct {
 	text     string
 	source   string // workload class
 	root     ast.Node
-	nodes    []ast.Node              // document order (reference, all-continue, library key table)
-	ord      map[ast.Node]int        // node -> ordinal
-	encl     map[ast.Node][]ast.Node // node -> real enclosing nodes, outermost first
+	nodes    []ast.Node                 // document order (reference, all-continue, library key table)
+	ord      map[ast.Node]int           // node -> ordinal
+	encl     map[ast.Node][]ast.Node    // node -> real enclosing nodes, outermost first
+	path     map[ast.Node][]interface{} // node -> the one path from the root to it (checked with walk.Resolve)
 	hasDesc  bool
 	sch      *builtSchema // type-aware documents only
 	types    map[ast.Node]*tsnap
@@ -26,7 +27,7 @@ type tree struct {
 }
 
 func newTree(text, source string, root ast.Node) *tree {
-	t := &tree{text: text, source: source, root: root, ord: map[ast.Node]int{}, encl: map[ast.Node][]ast.Node{}}
+	t := &tree{text: text, source: source, root: root, ord: map[ast.Node]int{}, encl: map[ast.Node][]ast.Node{}, path: map[ast.Node][]interface{}{}}
 	for _, e := range walk.Walk(root, nil, 0, nil) {
 		if e.Phase == walk.Enter {
 			t.ord[e.Node] = len(t.nodes)
@@ -38,6 +39,12 @@ func newTree(text, source string, root ast.Node) *tree {
 		if e.Phase == walk.Enter {
 			withDesc++
 			t.encl[e.Node] = e.Enclosing
+			// a tree has exactly one path to each node: following a path from
+			// the root reaches the node iff it is that path
+			if walk.Resolve(root, e.Path, &walk.Options{Descriptions: true}) != e.Node {
+				panic("reference self-check: Resolve(Path) does not reach the node")
+			}
+			t.path[e.Node] = e.Path
 		}
 	}
 	t.hasDesc = withDesc != len(t.nodes)
@@ -123,35 +130,34 @@ func (t *tree) compareSeq(f *formSpec, exp []walk.Event, got []obs, limit int, s
 		if limit >= 0 && i >= limit {
 			return nil
 		}
-		var es, gs string
-		if i < len(exp) {
-			es = t.eventString(&exp[i], f.pick(exp[i].Kind, exp[i].Phase))
-		} else {
-			es = "<end of sequence>"
+		fail := func(sig, what string) *mismatch {
+			es, gs := "<end of sequence>", "<end of sequence>"
+			if i < len(exp) {
+				es = t.eventString(&exp[i], f.pick(exp[i].Kind, exp[i].Phase))
+			}
+			if i < len(got) {
+				gs = t.eventString(&got[i].Event, got[i].Fn)
+			}
+			d := map[string]interface{}{"index": i, "expected": es, "observed": gs, "expected_len": len(exp), "observed_len": len(got)}
+			return &mismatch{sig, fmt.Sprintf("%s at index %d: expected %s, observed %s", what, i, es, gs), d}
 		}
-		if i < len(got) {
-			gs = t.eventString(&got[i].Event, got[i].Fn)
-		} else {
-			gs = "<end of sequence>"
-		}
-		d := map[string]interface{}{"index": i, "expected": es, "observed": gs, "expected_len": len(exp), "observed_len": len(got)}
 		if i >= len(exp) || i >= len(got) {
-			return &mismatch{seqSig, fmt.Sprintf("event sequence differs at index %d: expected %s, observed %s", i, es, gs), d}
+			return fail(seqSig, "event sequence differs")
 		}
 		e, g := &exp[i], &got[i]
 		switch {
 		case e.Phase != g.Phase || e.Node != g.Node || e.Kind != g.Kind:
-			return &mismatch{seqSig, fmt.Sprintf("event sequence differs at index %d: expected %s, observed %s", i, es, gs), d}
+			return fail(seqSig, "event sequence differs")
 		case f.pick(e.Kind, e.Phase) != g.Fn:
-			return &mismatch{seqSig, fmt.Sprintf("wrong visit function at index %d: expected %s, observed %s", i, es, gs), d}
+			return fail(seqSig, "wrong visit function")
 		case e.Key != g.Key:
-			return &mismatch{"key", fmt.Sprintf("key differs at index %d: expected %s, observed %s", i, es, gs), d}
+			return fail("key", "key differs")
 		case isNilNode(e.Parent) != isNilNode(g.Parent) || (!isNilNode(e.Parent) && e.Parent != g.Parent):
-			return &mismatch{"parent", fmt.Sprintf("parent differs at index %d: expected %s, observed %s", i, es, gs), d}
+			return fail("parent", "parent differs")
 		case e.Phase == walk.Enter && !samePath(e.Path, g.Path):
-			return &mismatch{"path", fmt.Sprintf("path differs at index %d: expected %s, observed %s", i, es, gs), d}
+			return fail("path", "path differs")
 		case !sameNodes(e.Ancestors, g.Ancestors):
-			return &mismatch{"ancestors", fmt.Sprintf("ancestors differ at index %d: expected %s, observed %s", i, es, gs), d}
+			return fail("ancestors", "ancestors differ")
 		}
 	}
 	return nil
@@ -166,14 +172,19 @@ func (t *tree) compareSeq(f *formSpec, exp []walk.Event, got []obs, limit int, s
 //	P  on enter, following Path from the root reaches the node;
 //	K  on enter, Key is the last step of Path (nil for the root);
 //	L  on leave, Key, Parent and Ancestors equal those passed on enter.
-func (t *tree) laws(got []obs, o *walk.Options) *mismatch {
+func (t *tree) laws(got []obs) *mismatch {
 	entered := map[ast.Node]*obs{}
 	for i := range got {
 		g := &got[i]
-		gs := t.eventString(&g.Event, g.Fn)
-		d := map[string]interface{}{"index": i, "observed": gs}
 		encl, known := t.encl[g.Node]
+		var gs string
+		var d map[string]interface{}
+		lazy := func() {
+			gs = t.eventString(&g.Event, g.Fn)
+			d = map[string]interface{}{"index": i, "observed": gs}
+		}
 		if !known {
+			lazy()
 			return &mismatch{"ancestors", fmt.Sprintf("event for a node that is not part of the tree at index %d: %s", i, gs), d}
 		}
 		{
@@ -186,17 +197,21 @@ func (t *tree) laws(got []obs, o *walk.Options) *mismatch {
 			if !isNilNode(g.Parent) {
 				chain = append(chain, g.Parent)
 				if len(encl) == 0 || encl[len(encl)-1] != g.Parent {
+					lazy()
 					d["enclosing"] = t.nodeList(encl)
 					return &mismatch{"parent", fmt.Sprintf("law A: Parent is not the immediately enclosing node at index %d: %s (enclosing %s)", i, gs, t.nodeList(encl)), d}
 				}
 			}
 			if !sameNodes(chain, encl) {
+				lazy()
 				d["enclosing"] = t.nodeList(encl)
 				return &mismatch{"ancestors", fmt.Sprintf("law A: Ancestors+Parent are not the enclosing nodes at index %d: %s (enclosing %s)", i, gs, t.nodeList(encl)), d}
 			}
 		}
 		if g.Phase == walk.Enter {
-			if r := walk.Resolve(t.root, g.Path, o); r != g.Node {
+			if !samePath(g.Path, t.path[g.Node]) {
+				lazy()
+				r := walk.Resolve(t.root, g.Path, &walk.Options{Descriptions: true})
 				d["path_leads_to"] = t.nodeName(r)
 				return &mismatch{"path", fmt.Sprintf("law P: Path does not lead to the node at index %d: %s (leads to %s)", i, gs, t.nodeName(r)), d}
 			}
@@ -205,6 +220,7 @@ func (t *tree) laws(got []obs, o *walk.Options) *mismatch {
 				last = g.Path[len(g.Path)-1]
 			}
 			if g.Key != last {
+				lazy()
 				return &mismatch{"key", fmt.Sprintf("law K: Key is not the last step of Path at index %d: %s", i, gs), d}
 			}
 			entered[g.Node] = g
@@ -214,14 +230,19 @@ func (t *tree) laws(got []obs, o *walk.Options) *mismatch {
 		if e == nil {
 			continue // the form has no enter function for this kind
 		}
-		d["enter"] = t.eventString(&e.Event, e.Fn)
+		sig, what := "", ""
 		switch {
 		case e.Key != g.Key:
-			return &mismatch{"key", fmt.Sprintf("law L: Key on leave differs from enter at index %d: %s", i, gs), d}
+			sig, what = "key", "Key on leave differs from enter"
 		case isNilNode(e.Parent) != isNilNode(g.Parent) || (!isNilNode(e.Parent) && e.Parent != g.Parent):
-			return &mismatch{"parent", fmt.Sprintf("law L: Parent on leave differs from enter at index %d: %s", i, gs), d}
+			sig, what = "parent", "Parent on leave differs from enter"
 		case !sameNodes(e.Ancestors, g.Ancestors):
-			return &mismatch{"ancestors", fmt.Sprintf("law L: Ancestors on leave differ from enter at index %d: %s", i, gs), d}
+			sig, what = "ancestors", "Ancestors on leave differ from enter"
+		}
+		if sig != "" {
+			lazy()
+			d["enter"] = t.eventString(&e.Event, e.Fn)
+			return &mismatch{sig, fmt.Sprintf("law L: %s at index %d: %s", what, i, gs), d}
 		}
 	}
 	return nil
@@ -250,6 +271,13 @@ func (t *tree) sameObserved(alone, par []obs, limit int) *mismatch {
 		if limit >= 0 && i >= limit {
 			return nil
 		}
+		if i < len(alone) && i < len(par) {
+			a, p := &alone[i], &par[i]
+			if a.Phase == p.Phase && a.Node == p.Node && a.Fn == p.Fn && a.Key == p.Key && isNilNode(a.Parent) == isNilNode(p.Parent) &&
+				(isNilNode(a.Parent) || a.Parent == p.Parent) && samePath(a.Path, p.Path) && sameNodes(a.Ancestors, p.Ancestors) {
+				continue
+			}
+		}
 		as, ps := "<end of sequence>", "<end of sequence>"
 		if i < len(alone) {
 			as = t.eventString(&alone[i].Event, alone[i].Fn)
@@ -257,7 +285,7 @@ func (t *tree) sameObserved(alone, par []obs, limit int) *mismatch {
 		if i < len(par) {
 			ps = t.eventString(&par[i].Event, par[i].Fn)
 		}
-		if as != ps {
+		{
 			return &mismatch{"parallel", fmt.Sprintf("visitor observes a different sequence in parallel than alone, index %d: alone %s, parallel %s", i, as, ps),
 				map[string]interface{}{"index": i, "alone": as, "parallel": ps, "alone_len": len(alone), "parallel_len": len(par)}}
 		}
